@@ -269,6 +269,7 @@ func (k *Kernel) OpenFile(path string, flag int) (*FD, error) {
 func (ff *Fifo) read(b []byte) (int, error) {
 	Block("fifo.read", func() bool { return len(ff.buf) > 0 || ff.writers == 0 })
 	if len(ff.buf) == 0 {
+		Probe("fifo-read-returned-EOF")
 		return 0, io.EOF // no writer left: end of file, exactly as read(2) on a FIFO
 	}
 	n := copy(b, ff.buf)
